@@ -15,7 +15,8 @@ ORACLE = ('reference trace functions written in the harness: FOR runs while the 
           'call for n < 0 or n > 255; WHILE repeats while the condition is non-zero; RETURN resumes '
           'after the calling statement')
 BOUNDS = {'programs': 'the fixed templates listed as cases (not "all programs"): single and nested integer '
-                      'FOR loops, ON n GOTO / GOSUB with 3 targets, WHILE counter loops, GOSUB nesting',
+                      'FOR loops, ON n GOTO / GOSUB with 3 targets, WHILE counter loops (nested, left by GOTO), GOSUB nesting, '
+                      'IF/THEN/ELSE two and three deep, GOSUB / ON GOSUB inside FOR, RETURN dropping a FOR',
           'values': 'every 16-bit value of the start / end / step / selector variables, restricted by an '
                     'assumption to at most 2 (thorough 3) loop iterations (4 for WHILE); step 0 excluded',
           'outside': 'single-precision counters, arbitrary programs, mismatched NEXT/WEND/RETURN beyond the '
@@ -187,4 +188,159 @@ def cases(tier):
           Case('while', body_while), Case('gosub-nesting', body_gosub)]
     for w in ('next', 'wend', 'return', 'for', 'while'):
         cs.append(Case('mismatch-' + w, body_mismatch, params={'which': w}))
+    return cs + cases_more()
+
+
+def body_if(h):
+    """IF / THEN / ELSE: nearest-IF binding of ELSE, statement lists in both branches, line-number targets"""
+    which = h.params['which']
+    if which == 'dangling':
+        prog = [b'10 IF A% THEN IF B% THEN R%=1 ELSE R%=2 ELSE R%=3', b'20 E%=1']
+        ref = lambda A, B: (ite(A != 0, ite(B != 0, 1, 2), 3), 0)
+    elif which == 'lists':
+        prog = [b'10 IF A%>B% THEN R%=1: S%=1 ELSE R%=2: S%=2', b'20 E%=1']
+        ref = lambda A, B: (ite(A > B, 1, 2), ite(A > B, 1, 2))
+    elif which == 'targets':
+        prog = [b'10 IF A%=B% THEN 40 ELSE 30', b'20 R%=9: E%=1: END', b'30 R%=2: S%=7: E%=1: END',
+                b'40 R%=1: E%=1: END']
+        ref = lambda A, B: (ite(A == B, 1, 2), ite(A == B, 0, 7))
+    elif which == 'goto-else':
+        prog = [b'10 IF A%<B% GOTO 40 ELSE S%=5: R%=2', b'20 E%=1: END', b'40 R%=1: E%=1: END']
+        ref = lambda A, B: (ite(A < B, 1, 2), ite(A < B, 0, 5))
+    else:
+        # no ELSE: a false condition skips the rest of the line, including later statements
+        prog = [b'10 IF A%<=B% THEN R%=1: S%=1', b'20 E%=1']
+        ref = lambda A, B: (ite(A <= B, 1, 0), ite(A <= B, 1, 0))
+    impl = _setup(h, prog, [b'A%', b'B%', b'R%', b'S%', b'E%'])
+    a, b = h.bytes('a', 2), h.bytes('b', 2)
+    A, B = s16(a), s16(b)
+    session.poke_int(h, impl, b'A%', a)
+    session.poke_int(h, impl, b'B%', b)
+    impl.execute(b'GOTO 10')
+    r, s = ref(A, B)
+    R, S, E = _geti(impl, b'R%'), _geti(impl, b'S%'), _geti(impl, b'E%')
+    h.require('branch-taken', R == r)
+    h.require('statement-list-of-the-branch', S == s)
+    h.require('continues-on-next-line', s_and(E == 1, impl.interpreter.error_num == 0))
+    return [R, S, E]
+
+
+def body_while_nested(h):
+    """nested WHILE; the inner loop may run zero times (WEND matching by scanning)"""
+    prog = [b'10 WHILE A%<>B%: A%=A%+1: WHILE C%<>D%: C%=C%+1: N%=N%+1: WEND: M%=M%+1: WEND: E%=1']
+    impl = _setup(h, prog, [b'A%', b'B%', b'C%', b'D%', b'N%', b'M%', b'E%'])
+    a, b = h.bytes('a', 2), h.bytes('b', 2)
+    A, B = s16(a), s16(b)
+    C, D = 0, h.params['inner']            # (symbolic inner bounds did not finish in 4 minutes: concrete)
+    h.assume(s_and(B - A >= 0, B - A <= 2))
+    for nm, v in ((b'A%', a), (b'B%', b)):
+        session.poke_int(h, impl, nm, v)
+    impl.execute(b'D%%=%d' % D)
+    impl.execute(b'GOTO 10')
+    outer = B - A
+    inner = ite(outer > 0, D - C, 0)       # the inner counter is not reset: later passes skip the inner loop
+    h.require('outer-count', _geti(impl, b'M%') == outer)
+    h.require('inner-count', _geti(impl, b'N%') == inner)
+    h.require('finished', s_and(_geti(impl, b'E%') == 1, impl.interpreter.error_num == 0))
+    return [_geti(impl, b'M%'), _geti(impl, b'N%')]
+
+
+def body_for_gosub(h):
+    """GOSUB from inside a FOR body; RETURN resumes inside the loop at any iteration"""
+    which = h.params['which']
+    if which == 'call-in-loop':
+        prog = [b'10 FOR I%=1 TO A%: GOSUB 100: M%=M%+1: NEXT: E%=1: END', b'100 N%=N%+I%: RETURN']
+    elif which == 'on-gosub-in-loop':
+        prog = [b'10 FOR I%=1 TO A%: ON I% GOSUB 100,200: M%=M%+1: NEXT: E%=1: END',
+                b'100 N%=N%+1: RETURN', b'200 N%=N%+10: RETURN']
+    else:
+        # a FOR opened inside a subroutine is dropped by RETURN: the NEXT after the call has no FOR
+        prog = [b'10 GOSUB 100: E%=1: IF A%>0 THEN NEXT', b'20 E%=2: END', b'100 FOR I%=1 TO 5: RETURN: NEXT']
+    impl = _setup(h, prog, [b'A%', b'N%', b'M%', b'I%', b'E%'])
+    a = h.bytes('a', 2)
+    A = s16(a)
+    h.assume(A <= 3)
+    session.poke_int(h, impl, b'A%', a)
+    impl.execute(b'GOTO 10')
+    N, M, E = _geti(impl, b'N%'), _geti(impl, b'M%'), _geti(impl, b'E%')
+    err = impl.interpreter.error_num
+    cnt = ite(A < 1, 0, A)
+    if which == 'call-in-loop':
+        h.require('body-count', M == cnt)
+        h.require('subroutine-sees-counter', N == ite(cnt == 0, 0, ite(cnt == 1, 1, ite(cnt == 2, 3, 6))))
+        h.require('finished', s_and(E == 1, err == 0))
+    elif which == 'on-gosub-in-loop':
+        h.require('body-count', M == cnt)
+        h.require('nth-target-per-iteration', N == ite(cnt == 0, 0, ite(cnt == 1, 1, 11)))
+        h.require('finished', s_and(E == 1, err == 0))
+    else:
+        h.require('next-without-for-after-return', s_iff(A > 0, err == 1))
+        h.require('no-other-error', s_or(err == 0, err == 1))
+        h.require('position', E == ite(A > 0, 1, 2))
+    return [N, M, E, err]
+
+
+def body_for_reentry(h):
+    """leaving a FOR body with GOTO and starting a new FOR on the same counter"""
+    prog = [b'10 FOR I%=1 TO 3: IF I%=X% THEN 30', b'20 NEXT: R%=1',
+            b'30 FOR I%=1 TO 2: N%=N%+1: NEXT: E%=1']
+    impl = _setup(h, prog, [b'X%', b'N%', b'R%', b'I%', b'E%'])
+    x = h.bytes('x', 2)
+    X = s16(x)
+    session.poke_int(h, impl, b'X%', x)
+    impl.execute(b'GOTO 10')
+    jumped = s_and(X >= 1, X <= 3)
+    h.require('second-loop-runs-twice', _geti(impl, b'N%') == 2)
+    h.require('first-loop-finished-unless-left', _geti(impl, b'R%') == ite(jumped, 0, 1))
+    h.require('counter-after', _geti(impl, b'I%') == 3)
+    h.require('finished', s_and(_geti(impl, b'E%') == 1, impl.interpreter.error_num == 0))
+    return [_geti(impl, b'N%'), _geti(impl, b'R%')]
+
+
+def cases_more():
+    cs = [Case('if-' + w, body_if, params={'which': w})
+          for w in ('dangling', 'lists', 'targets', 'goto-else', 'no-else')]
+    cs += [Case('while-nested-inner%d' % i, body_while_nested, params={'inner': i}, timeout_s=3000) for i in (0, 2)]
+    cs += [Case('for-' + w, body_for_gosub, params={'which': w}, timeout_s=3000)
+           for w in ('call-in-loop', 'on-gosub-in-loop', 'return-drops-for')]
+    cs.append(Case('for-reentry-after-goto', body_for_reentry))
+    cs += [Case('if-three-deep', body_if3), Case('if-three-deep-targets', body_if3, params={'targets': True}),
+           Case('while-jump-out-of-two', body_while_jump_out, timeout_s=3000)]
     return cs
+
+
+def body_if3(h):
+    """three IFs on one line, each with its ELSE: every ELSE belongs to the nearest open IF"""
+    prog = [b'10 IF A% THEN IF B% THEN IF C% THEN R%=1 ELSE R%=2 ELSE R%=3 ELSE R%=4', b'20 E%=1']
+    if h.params.get('targets'):
+        prog = [b'10 IF A% THEN IF B% THEN IF C% THEN 100 ELSE 200 ELSE 300 ELSE 400', b'20 R%=9: E%=1: END',
+                b'100 R%=1: E%=1: END', b'200 R%=2: E%=1: END', b'300 R%=3: E%=1: END', b'400 R%=4: E%=1: END']
+    impl = _setup(h, prog, [b'A%', b'B%', b'C%', b'R%', b'E%'])
+    a, b, c = h.bytes('a', 2), h.bytes('b', 2), h.bytes('c', 2)
+    A, B, C = s16(a), s16(b), s16(c)
+    for nm, v in ((b'A%', a), (b'B%', b), (b'C%', c)):
+        h.assume(s_and(v[1] == 0, v[0] <= 1))      # truth values 0 / 1 (other non-zero values: if-dangling)
+        session.poke_int(h, impl, nm, v)
+    impl.execute(b'GOTO 10')
+    h.require('branch-taken', _geti(impl, b'R%') == ite(A != 0, ite(B != 0, ite(C != 0, 1, 2), 3), 4))
+    h.require('continues', s_and(_geti(impl, b'E%') == 1, impl.interpreter.error_num == 0))
+    return [_geti(impl, b'R%')]
+
+
+def body_while_jump_out(h):
+    """GOTO out of two nested inner WHILE loops into the body of the enclosing one; its WEND tests its own
+    condition"""
+    prog = [b'10 WHILE A%<>B%: A%=A%+1: M%=M%+1', b'20 WHILE K%=0: K%=1: WHILE 1: GOTO 40', b'30 WEND: WEND',
+            b'40 N%=N%+1: WEND: E%=1']
+    impl = _setup(h, prog, [b'A%', b'B%', b'N%', b'M%', b'E%', b'K%'])
+    a, b = h.bytes('a', 2), h.bytes('b', 2)
+    A, B = s16(a), s16(b)
+    h.assume(s_and(B - A >= 0, B - A <= 2))
+    session.poke_int(h, impl, b'A%', a)
+    session.poke_int(h, impl, b'B%', b)
+    impl.execute(b'GOTO 10')
+    h.require('outer-body-count', _geti(impl, b'M%') == B - A)
+    h.require('tail-of-outer-body-count', _geti(impl, b'N%') == B - A)
+    h.require('ends-at-bound', _geti(impl, b'A%') == B)
+    h.require('finished', s_and(_geti(impl, b'E%') == 1, impl.interpreter.error_num == 0))
+    return [_geti(impl, b'M%'), _geti(impl, b'N%')]
